@@ -352,10 +352,30 @@ def callOK (fl : Bool) (env : Env) (g : Term) : Prop :=
 /-- the context `arrive` binds variable 0 to -/
 def indicator (f : String) (n : Nat) : Term := .app "/" (.cons (.atom f) (.cons (.int n) .nil))
 
-/-- every `arrive` at `call/1` that produces this result met the side condition -/
+/-- the goal `callN` builds from the dereferenced closure `g0` and the additional arguments -/
+def addArgsVM (g0 : Term) (extra : List Term) : Option Term :=
+  match g0 with
+  | .atom a => some (.app a (Args.ofList extra))
+  | .app a as => some (.app a (Args.ofList (as.toList ++ extra)))
+  | _ => none
+
+/-- the side condition at `call/N`, N ≥ 2: the closure `g` dereferences — within the model's inner
+    fuel — to a variable (instantiation error), to a number or string (type error), or to a callable
+    term such that the goal built from it and the additional arguments `extra` is instantiated within
+    the inner fuel to a body of the fragment -/
+def callNOK (fl : Bool) (env : Env) (g : Term) (extra : List Term) : Prop :=
+  ∃ g0, resolve inner env g = some g0 ∧
+    ((∃ v, g0 = .var v) ∨ (addArgsVM g0 extra = none ∧ ∀ v, g0 ≠ .var v) ∨
+      ∃ G g', addArgsVM g0 extra = some G ∧ applyAll inner env G = some g' ∧ wfT g' = true ∧ dbodyS fl g' = true)
+
+/-- every `arrive` at `call/1` (at `call/N`, N ≥ 2) that produces this result met the side
+    condition `callOK` (`callNOK`) -/
 def ResFine (fl : Bool) (res : Pr × MS) : Prop :=
-  ∀ (fuel : Nat) (g : Term) (K : Cont) (env : Env) (mm : MS),
-    arrive fuel "call" [g] K env mm = some res → callOK fl (env.bind varContext (indicator "call" 1)) g
+  (∀ (fuel : Nat) (g : Term) (K : Cont) (env : Env) (mm : MS),
+    arrive fuel "call" [g] K env mm = some res → callOK fl (env.bind varContext (indicator "call" 1)) g) ∧
+  (∀ (fuel : Nat) (g e : Term) (es : List Term) (K : Cont) (env : Env) (mm : MS),
+    arrive fuel "call" (g :: e :: es) K env mm = some res →
+      callNOK fl (env.bind varContext (indicator "call" (g :: e :: es).length)) g (e :: es))
 
 /-! ### the reference interpreter on `call/1` -/
 
@@ -383,6 +403,7 @@ theorem goalS_isGoal {fl : Bool} {t : Term} (h : goalS fl t = true) : SLD.isGoal
       | ifthen c t hx => subst hx; rfl
       | once x hx => subst hx; rfl
       | neg x hx => subst hx; rfl
+      | callN x e es hx _ => subst hx; rfl
 
 theorem okBody_S {fl : Bool} {b : Term} (h : bodyS fl b = true) : SLD.okBody false b = true := by
   simp only [SLD.okBody, Bool.false_eq_true, if_false, disjuncts_horn b h, List.all_cons, List.all_nil, Bool.and_true]
@@ -593,6 +614,129 @@ theorem solve_call1M (prog : List Term) (n d nv l : Nat) (b : Term) (rest : List
   · simp only [SLD.call1, SLD.functor, Args.toList, List.length_nil, Nat.not_lt_zero, if_false,
       addArgs_nil' hw hnv (dbodyS_isGoal hb hnv), hok, if_true, SLD.bodyAlts, Bool.false_eq_true]
   · intro v hv; cases hv
+
+/-! ### `call/N`, 2 ≤ N ≤ 8 -/
+
+/-- `call(c, e, es…)`: the goal `b` built from the closure and the additional arguments is called -/
+theorem solve_callN (prog : List Term) (n d nv l : Nat) (c e : Term) (es : Args) (b : Term) (rest : List SLD.Frame)
+    (q : Term) (limit : Nat) {fl : Bool} (hl : es.length ≤ 6)
+    (hadd : SLD.addArgs c (e :: es.toList) = some b) (hb : dbodyS fl b = true) (hnv : ∀ v, b ≠ .var v) :
+    SLD.solve false prog (n + 1) d nv (.goal (.app "call" (.cons c (.cons e es))) l :: rest) q limit =
+      SLD.solveAlts false prog n d nv ((SLD.disjuncts b).map (fun x => .frames (SLD.bodyFrames false x d))) rest q
+        limit := by
+  have hok : SLD.okBody false b = true := by
+    simp only [SLD.okBody, Bool.false_eq_true, if_false, List.all_eq_true]
+    intro dj hdj t ht
+    simp only [dbodyS, List.all_eq_true] at hb
+    have := hb dj hdj
+    simp only [bodyS, List.all_eq_true] at this
+    exact goalS_isGoal (this t ht)
+  have hlen : ¬ (es.length + 1 > 7) := by omega
+  rw [SLD.solve]
+  · simp only [SLD.functor, Args.toList, List.length_cons, Args.length_toList, hlen, if_false, hadd]
+    cases b with
+    | var v => exact absurd rfl (hnv v)
+    | _ => simp only [hok, if_true, SLD.bodyAlts, Bool.false_eq_true, if_false]
+  · intro v hv; cases hv
+
+/-- the error of `call/N` on a closure that is not callable -/
+def notCallableErr (c : Term) : Term :=
+  match c with
+  | .var _ => SLD.instErr
+  | _ => SLD.typeErr "callable" c
+
+/-- `call(c, e, es…)`, the closure `c` not callable: instantiation or type error -/
+theorem solve_callN_none (prog : List Term) (n d nv l : Nat) (c e : Term) (es : Args) (rest : List SLD.Frame)
+    (q : Term) (limit : Nat) (hl : es.length ≤ 6) (hadd : SLD.addArgs c (e :: es.toList) = none) :
+    SLD.solve false prog (n + 1) d nv (.goal (.app "call" (.cons c (.cons e es))) l :: rest) q limit =
+      SLD.raise (notCallableErr c) := by
+  have hlen : ¬ (es.length + 1 > 7) := by omega
+  rw [SLD.solve]
+  · simp only [SLD.functor, Args.toList, List.length_cons, Args.length_toList, hlen, if_false, hadd]
+    cases c <;> rfl
+  · intro v hv; cases hv
+
+/-- the goal the VM builds and the goal the reference builds: images of each other -/
+theorem addArgs_img (σ : Subst) (π : Nat → Nat) {g0 G : Term} {e : Term} {es : List Term}
+    (h : addArgsVM g0 (e :: es) = some G) :
+    SLD.addArgs (img σ π g0) (img σ π e :: es.map (img σ π)) = some (img σ π G) := by
+  cases g0 with
+  | atom a =>
+    simp only [addArgsVM, Option.some.injEq] at h
+    subst h
+    simp only [SLD.addArgs, img, Term.subst, Term.rename, SLD.functor, Option.map_some, List.nil_append, Term.mk,
+      Activation.ofList_subst, List.map_map, Args.ofList, Args.subst]
+    rfl
+  | app a as =>
+    simp only [addArgsVM, Option.some.injEq] at h
+    subst h
+    have hne : ∀ (l : List Term) (x : Term) (l' : List Term), Term.mk a (l ++ x :: l') = .app a (Args.ofList (l ++ x :: l')) := by
+      intro l x l'
+      cases l <;> rfl
+    simp only [SLD.addArgs, img, Term.subst, Term.rename, SLD.functor, Option.map_some, hne,
+      Activation.ofList_subst, Activation.toList_subst, List.map_cons, List.map_map, List.map_append]
+    rfl
+  | var _ => simp [addArgsVM] at h
+  | int _ => simp [addArgsVM] at h
+  | flt _ => simp [addArgsVM] at h
+  | str _ => simp [addArgsVM] at h
+
+theorem addArgsVM_vars {σ : Subst} {g0 G : Term} {extra : List Term} (h : addArgsVM g0 extra = some G) {v : Nat}
+    (hv : (G.subst σ).hasVar v = true) :
+    (g0.subst σ).hasVar v = true ∨ ∃ t ∈ extra, (t.subst σ).hasVar v = true := by
+  cases g0 with
+  | atom a =>
+    simp only [addArgsVM, Option.some.injEq] at h
+    subst h
+    simp only [Term.subst, Term.hasVar, Activation.ofList_subst, hasVar_ofList_iff, List.mem_map] at hv
+    obtain ⟨t, ⟨t0, ht0, rfl⟩, ht⟩ := hv
+    exact Or.inr ⟨t0, ht0, ht⟩
+  | app a as =>
+    simp only [addArgsVM, Option.some.injEq] at h
+    subst h
+    simp only [Term.subst, Term.hasVar, Activation.ofList_subst, hasVar_ofList_iff, List.mem_map, List.mem_append] at hv
+    obtain ⟨t, ⟨t0, ht0 | ht0, rfl⟩, ht⟩ := hv
+    · left
+      simp only [Term.subst, Term.hasVar]
+      rw [← Args.ofList_toList (as.subst σ), hasVar_ofList_iff, Activation.toList_subst]
+      exact ⟨_, List.mem_map_of_mem ht0, ht⟩
+    · exact Or.inr ⟨t0, ht0, ht⟩
+  | var _ => simp [addArgsVM] at h
+  | int _ => simp [addArgsVM] at h
+  | flt _ => simp [addArgsVM] at h
+  | str _ => simp [addArgsVM] at h
+
+/-- the goal `callN` builds is a compound term -/
+theorem addArgsVM_app {g0 G e : Term} {es : List Term} (h : addArgsVM g0 (e :: es) = some G) :
+    (∀ v, g0 ≠ .var v) ∧ ∃ a x xs, G = .app a (.cons x xs) := by
+  cases g0 with
+  | atom a =>
+    simp only [addArgsVM, Option.some.injEq] at h
+    subst h
+    exact ⟨(fun v hv => by cases hv), a, e, Args.ofList es, rfl⟩
+  | app a as =>
+    simp only [addArgsVM, Option.some.injEq] at h
+    subst h
+    refine ⟨(fun v hv => by cases hv), a, ?_⟩
+    cases as with
+    | nil => exact ⟨e, Args.ofList es, rfl⟩
+    | cons y ys => exact ⟨y, Args.ofList (ys.toList ++ e :: es), rfl⟩
+  | var _ => simp [addArgsVM] at h
+  | int _ => simp [addArgsVM] at h
+  | flt _ => simp [addArgsVM] at h
+  | str _ => simp [addArgsVM] at h
+
+/-- a closure that is neither a variable nor callable: a number or a string -/
+theorem addArgsVM_none {g0 : Term} {extra : List Term} (h : addArgsVM g0 extra = none) (hnv : ∀ v, g0 ≠ .var v) :
+    (∀ x, g0.hasVar x = false) ∧ (∀ l, SLD.addArgs g0 l = none) ∧
+      notCallableErr g0 = SLD.typeErr "callable" g0 := by
+  cases g0 with
+  | var v => exact absurd rfl (hnv v)
+  | atom _ => simp [addArgsVM] at h
+  | app _ _ => simp [addArgsVM] at h
+  | int _ => exact ⟨fun _ => rfl, fun _ => rfl, rfl⟩
+  | flt _ => exact ⟨fun _ => rfl, fun _ => rfl, rfl⟩
+  | str _ => exact ⟨fun _ => rfl, fun _ => rfl, rfl⟩
 
 /-! ### the bootstrap clause `true.` -/
 
